@@ -18,7 +18,7 @@ RULE = ('full Cartesian product of destination kind (absent, regular file, empty
         'shape (single / "0,1" with first or second blocked / "0-1") x --sort, and single selections again with the trash directory named by --trash-dir; plus an entry whose place gets taken by a directory restored earlier in the same run; plus the same location trashed twice and both indices chosen in one run (parent kept / removed); every point executed '
         'on the real trash-put + trash-restore; non-trivial = the run reached the existence probe '
         '(listing printed and an index chosen), distinct = outcome class x dest x kind x overwrite')
-DESTS = ['absent', 'file', 'file-same-stat', 'file-other-owner', 'emptydir', 'dir', 'lfile', 'ldir', 'ldang']
+DESTS = ['absent', 'file', 'file-same-stat', 'file-other-owner', 'file-readonly', 'emptydir', 'dir', 'lfile', 'ldir', 'ldang']
 SELS = ['single', 'comma-first', 'comma-second', 'range-first', 'range-second']
 SORTS = ['date', 'path', 'none']
 W = '/home/u/w'
@@ -47,6 +47,12 @@ def cases(tier):
                 for var in ('parent-kept', 'parent-removed'):
                     for reply in ('0,1', '0-1', '1,0'):
                         out.append({'part': 'twice', 'kind': k, 'ow': ow, 'sort': so, 'var': var, 'reply': reply})
+    # an entry written by another implementation whose Path ends in a slash; something that is not a directory already sits at that place
+    for so in ('date', 'none'):
+        for ow in (0, 1):
+            for k in ('file', 'tree', 'lfile'):
+                for d in ('file', 'lfile', 'ldang'):
+                    out.append({'part': 'slash-path', 'kind': k, 'ow': ow, 'sort': so, 'dest': d})
     # an older d/x, then the whole of d (with a newer x inside) were trashed; d is restored first IN THE SAME RUN: the older x now finds its place taken
     for so in ('path', 'date', 'none'):
         for ow in (0, 1):
@@ -69,7 +75,9 @@ def cases(tier):
 
 
 def plant(W_, path, dest):
-    if dest in ('file', 'file-other-owner'):
+    if dest == 'file-readonly':
+        W_.file(path, 'pre-existing destination without any write permission bit\n', mode=0o444)
+    elif dest in ('file', 'file-other-owner'):
         W_.file(path, 'pre-existing destination\n', mode=0o666)
     elif dest == 'file-same-stat':
         pass        # planted by the caller: same size, mode and mtime as the trashed file, other bytes
@@ -212,7 +220,40 @@ def run_nested(c):
     return {'verdict': 'ok', 'klass': 'refused', 'nontrivial': 'refused|' + dims, 'detail': detail}
 
 
+def run_slash_path(c):
+    bpath = W + '/b'
+    Wd = scen.base_world()
+    scen.add_trashed(Wd, TD, 'b', bpath + '/', '2024-01-01T10:00:00', payload=c['kind'], tag='foreign entry')
+    plant(Wd, bpath, c['dest'])
+    with cell.Sandbox(Wd.spec()) as sb:
+        before = sb.snapshot()
+        argv = ['trash-restore', '--sort', c['sort']] + (['--overwrite'] if c['ow'] else [])
+        r = sb.run(argv, stdin='0\n', cwd=W)
+        after = sb.snapshot()
+    listing = scen.parse_restore_listing(r.out)
+    dest_unchanged = world.under(before, bpath) == world.under(after, bpath)
+    kept = scen.entry_state(before, after, TD, 'b') == 'kept'
+    detail = {'argv': argv, 'exit': r.exit, 'err': r.err[-300:], 'listing': listing, 'dest_unchanged': dest_unchanged, 'pair_kept': kept}
+    dims = 'slash-path|dest=%s|kind=%s|ow=%d' % (c['dest'], c['kind'], c['ow'])
+    if not listing:
+        return {'verdict': 'dontcare', 'klass': 'slash-path:not-offered', 'detail': detail}
+    if c['ow']:
+        lost = not kept and not world.same_entry(before, TD + '/files/b', after, bpath)
+        if lost:
+            return {'verdict': 'viol', 'sig': 'C06|overwrite-lost-entry|dest=%s|kind=%s|Path-with-trailing-slash' % (c['dest'], c['kind']), 'klass': 'overwrite-lost-entry', 'nontrivial': dims, 'detail': detail}
+        return {'verdict': 'dontcare', 'klass': 'slash-path:overwrite', 'detail': detail}
+    if not dest_unchanged:
+        return {'verdict': 'viol', 'sig': 'C06|clobbered|dest=%s|ow=0|Path-with-trailing-slash' % c['dest'], 'klass': 'clobbered', 'nontrivial': 'clobbered|' + dims, 'detail': detail}
+    if not kept and not dest_unchanged:
+        return {'verdict': 'viol', 'sig': 'C06|pair-lost|dest=%s|ow=0|Path-with-trailing-slash' % c['dest'], 'klass': 'pair-lost', 'nontrivial': 'lost|' + dims, 'detail': detail}
+    if kept and r.exit == 0:
+        return {'verdict': 'viol', 'sig': 'C06|no-failure-report|dest=%s|ow=0|Path-with-trailing-slash' % c['dest'], 'klass': 'no-failure-report', 'nontrivial': 'silent|' + dims, 'detail': detail}
+    return {'verdict': 'ok', 'klass': 'refused', 'nontrivial': 'refused|' + dims, 'detail': detail}
+
+
 def run_case(c):
+    if c.get('part') == 'slash-path':
+        return run_slash_path(c)
     if c.get('part') == 'nested':
         return run_nested(c)
     if c.get('part') == 'at-prompt':
